@@ -6,6 +6,7 @@ package sse
 // values come from the replay vector named by $VERIF_REPLAY.
 
 import (
+	"sync"
 	"encoding/json"
 	"fmt"
 	"math"
@@ -169,3 +170,11 @@ func verifJSONDoc(s string) []byte {
 	b, _ := json.Marshal(s)
 	return b
 }
+
+// verifGuard declares that the given fields may only be read with mu held
+// (read or write lock) and only be written with mu write-locked; the executor
+// checks every access. Natively a no-op.
+func verifGuard(mu *sync.RWMutex, fields ...any) {}
+
+// verifLockFree: executor-only query of the lock state (see vhLockFree).
+func verifLockFree(mu *sync.RWMutex) bool { return true }
